@@ -283,3 +283,37 @@ theorem c10_pinned_usage_crashes :
     usageStatusPinned { schedKnown := false } = some .crash := by decide
 
 end RB.Sched
+
+namespace RB.Sched
+
+/-! ### the positional arguments: experiment name and filter expressions -/
+
+/-- an unknown experiment name as first argument ends in the user-facing error
+(exit 3) whatever follows it — filters, further names — and whatever else is
+given; nothing is executed (the trace is empty) -/
+theorem c10_unknown_experiment_first (cf : Conf) (rest : List Arg) (sk mk : Bool) (k : Kind) (faulty : Bool)
+    (g : G) (order cs : List Nat) (stopAt : Option Nat) :
+    (mainFunc cf (usageOfArgs (.name false :: rest) sk mk) k faulty g order cs stopAt).status = .uiError ∧
+    (mainFunc cf (usageOfArgs (.name false :: rest) sk mk) k faulty g order cs stopAt).trace = [] := by
+  have h : usageStatus (usageOfArgs (.name false :: rest) sk mk) = some .uiError := by
+    simp only [usageStatus, usageOfArgs, expKnownOf]
+    repeat' split
+    all_goals simp_all
+  simp [mainFunc, h]
+
+/-- arguments without a filter prefix after the first position are not looked at -/
+theorem c10_later_names_ignored (a : Arg) (pre post : List Arg) (kn : Bool) (sk mk : Bool) :
+    usageOfArgs (a :: pre ++ .name kn :: post) sk mk = usageOfArgs (a :: pre ++ post) sk mk := by
+  have hf : ∀ l : List Arg, filtersOf (l ++ .name kn :: post) = filtersOf (l ++ post) := by
+    intro l
+    induction l with
+    | nil => simp [filtersOf]
+    | cons x xs ih => cases x <;> simp [filtersOf, ih]
+  cases a <;> simp [usageOfArgs, expKnownOf, filtersOf, hf]
+
+/-- a first argument with a filter prefix is a filter, not a name: the default experiment is used -/
+theorem c10_filter_first_default_experiment (f : FilterExpr) (rest : List Arg) :
+    expKnownOf (.filter f :: rest) = true ∧ filtersOf (.filter f :: rest) = f :: filtersOf rest := by
+  simp [expKnownOf, filtersOf]
+
+end RB.Sched
